@@ -31,7 +31,7 @@ Off == [fin |-> FALSE, sum |-> FALSE, pool |-> FALSE]
 SeqToFun(ts, key, val) == [n \in {ts[k][key] : k \in 1..Len(ts)} |-> ts[MinOf({k \in 1..Len(ts) : ts[k][key] = n})][val]]
 StateOf(st, s) ==
   LET img == st.img
-      dpart == [dpool |-> [cp |-> img.cp, e |-> img.pool], dsum |-> img.sum,
+      dpart == [dpool |-> [cp |-> IF img.cp = 0 THEN 65001 ELSE img.cp, e |-> img.pool], dsum |-> img.sum,   \* id 0 = default page
                 ustreams |-> LET u == SeqToFun(img.streams, "name", "data") IN
                              IF img.sig THEN [x \in DOMAIN u \cup {SIG} |-> IF x = SIG THEN "sig" ELSE u[x]] ELSE u,
                 ptype |-> img.ptype]
@@ -46,7 +46,7 @@ StateOf(st, s) ==
      ELSE IF DOMAIN s.schemas = {}      \* a run that starts on a closed package: memory = what the bytes hold
      THEN LET sc == DecodeSchemas(cells, img.pool) IN
           [schemas |-> sc, tstream |-> [t \in DOMAIN sc \cap DOMAIN cells |-> cells[t]],
-           pool |-> img.pool, cp |-> img.cp, summary |-> img.sum, dirty |-> Off,
+           pool |-> NormPool(img.pool), cp |-> dpart.dpool.cp, summary |-> img.sum, dirty |-> Off,
            dpool |-> dpart.dpool, dsum |-> dpart.dsum, ustreams |-> dpart.ustreams,
            sess |-> "closed", ptype |-> dpart.ptype]
      ELSE [schemas |-> s.schemas,
@@ -83,7 +83,8 @@ Bind(s1) ==
   /\ ustreams' = s1.ustreams /\ sess' = s1.sess /\ ptype' = s1.ptype /\ ro' = FALSE
 
 \* The invariants of Msi.tla, evaluated on an observed state; the names that fail.
-InvNames == {"FlagsSane", "CleanIsDurable", "Accounting", "KeysOK", "CellsOK", "CatalogOK", "Limits"}
+CONSTANT InvSkip       \* invariants that do not apply to the run (files of other writers: exact accounting, key order)
+InvNames == {"FlagsSane", "CleanIsDurable", "Accounting", "KeysOK", "CellsOK", "CatalogOK", "Limits"} \ InvSkip
 InvHolds(n, s) ==
   CASE n = "FlagsSane"      -> (CleanS(s) => ~s.dirty.sum /\ ~s.dirty.pool)
     [] n = "CleanIsDurable" -> (CleanS(s) => LoadedS(s) = AbsS(s))
